@@ -238,11 +238,49 @@ func (c *Ctx) StaticCalleesInPkg(fn *ssa.Function, cut map[*ssa.Function]bool) [
 		seen[f] = true
 		order = append(order, f)
 		for _, ci := range Calls(f) {
-			if cal := ci.Common().StaticCallee(); cal != nil {
+			if cal := c.ResolvedCallee(ci.Common()); cal != nil {
 				visit(cal)
 			}
 		}
 	}
 	visit(fn)
 	return order
+}
+
+// InternalImpl resolves an invoke through an unexported in-scope interface (an internal seam, not a contract of the
+// library) that has exactly one implementing type in scope to that type's method; nil otherwise.
+func (c *Ctx) InternalImpl(com *ssa.CallCommon) *ssa.Function {
+	if !com.IsInvoke() {
+		return nil
+	}
+	n := NamedOf(com.Value.Type())
+	if n == nil || n.Obj().Exported() || n.Obj().Pkg() == nil || !InScopePath(n.Obj().Pkg().Path()) {
+		return nil
+	}
+	iface, ok := n.Underlying().(*types.Interface)
+	if !ok {
+		return nil
+	}
+	impls := c.Implementors(iface)
+	if len(impls) != 1 {
+		return nil
+	}
+	if fn := c.Prog.LookupMethod(types.NewPointer(impls[0]), com.Method.Pkg(), com.Method.Name()); fn != nil && fn.Blocks != nil {
+		if fn.Synthetic != "" {
+			// promoted / wrapper: the declared method
+			if m := c.DeclaredMethod(impls[0], com.Method.Name()); m != nil {
+				return m
+			}
+		}
+		return fn
+	}
+	return nil
+}
+
+// ResolvedCallee: the static callee, or the unique implementation behind an internal seam.
+func (c *Ctx) ResolvedCallee(com *ssa.CallCommon) *ssa.Function {
+	if cal := com.StaticCallee(); cal != nil {
+		return cal
+	}
+	return c.InternalImpl(com)
 }
